@@ -64,6 +64,31 @@ def _digest_any(o):
     return buffer_digest(o)
 
 
+_WEIGHTS_CLS = []
+
+
+def _weights_uncertainty():
+    """An NDUncertainty subclass whose uncertainty_type is 'weights'."""
+    if not _WEIGHTS_CLS:
+        from astropy.nddata import NDUncertainty
+
+        class WeightsUncertainty(NDUncertainty):
+            @property
+            def uncertainty_type(self):
+                return 'weights'
+
+            def _data_unit_to_uncertainty_unit(self, value):
+                return None
+
+            def _propagate_add(self, other_uncert, result_data, correlation):
+                return None
+
+            _propagate_subtract = _propagate_multiply = _propagate_add
+            _propagate_divide = _propagate_add
+        _WEIGHTS_CLS.append(WeightsUncertainty)
+    return _WEIGHTS_CLS[0]
+
+
 class InputsMachine(Machine):
     pid = 'C10'
     max_ops = 9
@@ -187,6 +212,11 @@ class InputsMachine(Machine):
         P['nddata'] = NDData(data.copy(), mask=mask.copy(),
                              uncertainty=StdDevUncertainty(
                                  P['error'].copy()))
+        # NDData whose uncertainty holds weights (the uncertainty_type
+        # 'weights' that extract_stars documents)
+        P['nddata_w'] = NDData(clean.copy(), mask=mask.copy(),
+                               uncertainty=_weights_uncertainty()(
+                                   1.0 / P['error']))
         st.P = P
         st.d0 = {k: _digest_any(v) for k, v in P.items()}
         st.actors = {}
@@ -621,7 +651,8 @@ class InputsMachine(Machine):
         from astropy.table import Table
         from photutils.psf import extract_stars
         P = st.P
-        src = P['nddata'] if op['variant'] % 2 else None
+        src = [None, P['nddata'], P['nddata_w'], P['nddata'], None,
+               P['nddata_w']][op['variant']]
         tbl = Table()
         tbl['x'] = P['xpos']
         tbl['y'] = P['ypos']
